@@ -18,15 +18,55 @@ package structuredheader
 // took(v, before): v is the prefix of `before` of its own length.
 //@ def took(v string, before string) bool = len(v) <= len(before) && (forall i int :: 0 <= i && i < len(v) ==> v[i] == before[i])
 
+// A list of lists is returned only when the whole input was consumed; it
+// has at least one inner list and no inner list is empty (what the writer
+// insists on as well).
 //@ func ParseListOfLists
 //@   props C16 C10
-//@   trusted
+//@   returns (ll, err)
+//@   ensures[non-empty-lists] err == nil ==> len(ll) >= 1 && (forall k int :: 0 <= k && k < len(ll) ==> len(ll[k]) >= 1)
 //@   assigns nothing
+
+//@ func (*parser).parseListOfLists
+//@   props C16 C10
+//@   returns (ll, err)
+//@   ensures[non-empty-lists] err == nil ==> len(ll) >= 1 && (forall k int :: 0 <= k && k < len(ll) ==> len(ll[k]) >= 1)
+//@   ensures[whole-input] err == nil ==> len(p.input) == 0
+//@   assigns p.input
+//@   loop 0:
+//@     invariant forall k int :: 0 <= k && k < len(topList) ==> len(topList[k]) >= 1
+//@     invariant fresh(topList) || cap(topList) == 0
+//@     invariant fresh(innerList) || cap(innerList) == 0
+//@     decreases len(p.input)
 
 //@ func ParseParameterisedList
 //@   props C16 C10
-//@   trusted
+//@   returns (pl, err)
+//@   ensures[non-empty] err == nil ==> len(pl) >= 1
 //@   assigns nothing
+
+//@ func (*parser).parseParameterisedList
+//@   props C16 C10
+//@   returns (pl, err)
+//@   ensures[non-empty] err == nil ==> len(pl) >= 1
+//@   ensures[whole-input] err == nil ==> len(p.input) == 0
+//@   assigns p.input
+//@   loop 0:
+//@     invariant fresh(items) || cap(items) == 0
+//@     decreases len(p.input)
+
+// A parameterised identifier: a token, then ";" key [ "=" item ] groups; a
+// repeated key is refused.
+//@ func (*parser).parseParameterisedIdentifier
+//@   props C16 C10
+//@   returns (pi, err)
+//@   ensures[label-is-token] err == nil ==> len(pi.Label) >= 1 && alpha(pi.Label[0]) && (forall i int :: 0 <= i && i < len(pi.Label) ==> tokenChar(pi.Label[i]))
+//@   ensures[progress] err == nil ==> len(p.input) < len(old(p.input)) && pi.Params != nil
+//@   ensures[keys-are-keys] err == nil ==> forall k Key :: has(pi.Params, k) ==> len(k) >= 1 && lcAlpha(k[0])
+//@   assigns p.input
+//@   loop 0:
+//@     invariant parameters != nil && fresh(parameters) && len(p.input) < len(old(p.input))
+//@     invariant forall k Key :: has(parameters, k) ==> len(k) >= 1 && lcAlpha(k[0])
 
 // key = lcalpha *( lcalpha / DIGIT / "_" / "-" ), longest match.
 //@ func (*parser).parseKey
@@ -63,6 +103,7 @@ package structuredheader
 //@   props C16 C10
 //@   returns (n, err)
 //@   ensures[number-grammar] err == nil ==> exists m int :: m >= 1 && m <= len(old(p.input)) && (old(p.input)[0] == '-' || digit(old(p.input)[0])) && (forall i int :: 1 <= i && i < m ==> digit(old(p.input)[i])) && rest(p.input, old(p.input), m) && (len(p.input) > 0 ==> !digit(p.input[0]))
+//@   ensures[progress] err == nil ==> len(p.input) < len(old(p.input))
 //@   ensures[rejects-non-numbers] len(old(p.input)) == 0 || (old(p.input)[0] != '-' && !digit(old(p.input)[0])) ==> err != nil
 //@   assigns p.input
 //@   loop 0:
@@ -77,6 +118,7 @@ package structuredheader
 //@   ensures[string-chars-printable] err == nil ==> forall i int :: 0 <= i && i < len(s) ==> 32 <= s[i] && s[i] <= 126
 //@   ensures[starts-with-quote] err == nil ==> len(old(p.input)) >= 2 && old(p.input)[0] == '"'
 //@   ensures[consumed-a-prefix] exists m int :: rest(p.input, old(p.input), m)
+//@   ensures[progress] err == nil ==> len(p.input) < len(old(p.input))
 //@   assigns p.input
 //@   loop 0:
 //@     invariant forall i int :: 0 <= i && i < len(bstr(b)) ==> 32 <= bstr(b)[i] && bstr(b)[i] <= 126
@@ -88,6 +130,7 @@ package structuredheader
 //@ func (*parser).parseByteSequence
 //@   props C16 C10
 //@   returns (bs, err)
+//@   ensures[progress] err == nil ==> len(p.input) < len(old(p.input))
 //@   ensures[byte-sequence-grammar] err == nil ==> exists m int :: m >= 0 && m + 2 <= len(old(p.input)) && old(p.input)[0] == '*' && old(p.input)[m + 1] == '*' && (forall i int :: 1 <= i && i <= m ==> b64Char(old(p.input)[i])) && rest(p.input, old(p.input), m + 2)
 //@   assigns p.input
 
@@ -95,6 +138,49 @@ package structuredheader
 //@ func (*parser).parseItem
 //@   props C16 C10
 //@   returns (it, err)
+//@   ensures[progress] err == nil ==> len(p.input) < len(old(p.input)) && it != nil
 //@   ensures[item-kinds] err == nil ==> typeis(it, int64) || typeis(it, string) || typeis(it, Token) || typeis(it, []byte)
 //@   ensures[dispatch] err == nil ==> len(old(p.input)) > 0 && ((typeis(it, int64) <==> (old(p.input)[0] == '-' || digit(old(p.input)[0]))) && (typeis(it, string) <==> old(p.input)[0] == '"') && (typeis(it, []byte) <==> old(p.input)[0] == '*') && (typeis(it, Token) <==> alpha(old(p.input)[0])))
 //@   assigns p.input
+
+// ---- writer side ----------------------------------------------------------------
+//@ def validKey(s string) bool = len(s) >= 1 && lcAlpha(s[0]) && (forall i int :: 0 <= i && i < len(s) ==> keyChar(s[i]))
+//@ def validToken(s string) bool = len(s) >= 1 && alpha(s[0]) && (forall i int :: 0 <= i && i < len(s) ==> tokenChar(s[i]))
+
+// The writer's validity tests accept exactly the strings the parser's key and
+// token productions produce.
+//@ func isValidKey
+//@   props C16
+//@   pure
+//@   ensures[exactly-keys] result <==> validKey(s)
+//@   loop 0:
+//@     invariant 0 <= strpos() && strpos() <= len(s) && len(s) >= 1 && lcAlpha(s[0])
+//@     invariant forall j int :: 0 <= j && j < strpos() ==> keyChar(s[j])
+//@     decreases len(s) - strpos()
+
+//@ func isValidToken
+//@   props C16
+//@   pure
+//@   ensures[exactly-tokens] result <==> validToken(s)
+//@   loop 0:
+//@     invariant 0 <= strpos() && strpos() <= len(s) && len(s) >= 1 && alpha(s[0])
+//@     invariant forall j int :: 0 <= j && j < strpos() ==> tokenChar(s[j])
+//@     decreases len(s) - strpos()
+
+// serializeItem: tokens are written verbatim and only if valid; strings only
+// if every character is printable ASCII; byte sequences as "*" base64 "*";
+// anything else is refused; on refusal nothing was written.
+//@ func serializeItem
+//@   props C16
+//@   requires out != nil
+//@   ensures[token] typeis(i, Token) ==> (result == nil <==> validToken(unboxed(i, Token))) && (result == nil ==> bstr(out) == old(bstr(out)) + unboxed(i, Token))
+//@   ensures[string] typeis(i, string) ==> (result == nil <==> (forall k int :: 0 <= k && k < len(unboxed(i, string)) ==> 32 <= unboxed(i, string)[k] && unboxed(i, string)[k] <= 126)) && (result == nil ==> bstr(out) == old(bstr(out)) + quoted(unboxed(i, string)))
+//@   ensures[number] typeis(i, int64) ==> result == nil && bstr(out) == old(bstr(out)) + fmtInt(unboxed(i, int64))
+//@   ensures[byte-sequence] typeis(i, []byte) ==> result == nil && bstr(out) == ((old(bstr(out)) + str1('*')) + base64std(bytes(unboxed(i, []byte)))) + str1('*')
+//@   ensures[other-types-refused] !typeis(i, Token) && !typeis(i, string) && !typeis(i, int64) && !typeis(i, []byte) ==> result != nil
+//@   ensures[refusal-writes-nothing] result != nil ==> bstr(out) == old(bstr(out))
+//@   assigns bstr(out)
+//@   loop 0:
+//@     invariant 0 <= strpos() && strpos() <= len(v)
+//@     invariant forall j int :: 0 <= j && j < strpos() ==> 32 <= v[j] && v[j] <= 126
+//@     decreases len(v) - strpos()
